@@ -62,8 +62,8 @@ func runC20(r *Run) {
 // in both directions, and constructor and validator aggregate the list the same way (shared by C20, C01).
 func genesisSupplyRules(r *Run) {
 	wr := "chain/genesis.wrap"
-	r.Has(wr, "common.DealWithErr(a1.SetBalance(next(range(a0.GenesisBlocks.Blocks[(iter+1)].BalanceList))#1,next(range(a0.GenesisBlocks.Blocks[(iter+1)].BalanceList))#2))", "every (token, balance) of an entry is written")
-	r.Branch(wr, "ne(a0.GenesisBlocks.Blocks[(iter+1)].Address,a1.Address())", "entries are selected by address")
+	r.Has(wr, "common.DealWithErr(a1.SetBalance(next(range(a0.GenesisBlocks.Blocks[iter].BalanceList))#1,next(range(a0.GenesisBlocks.Blocks[iter].BalanceList))#2))", "every (token, balance) of an entry is written")
+	r.Branch(wr, "ne(a0.GenesisBlocks.Blocks[iter].Address,a1.Address())", "entries are selected by address")
 	r.LoopNoEarlyExit(wr, "a0.GenesisBlocks.Blocks", "every entry of the unordered Blocks list that names the address contributes; stopping at the first match makes the state depend on the order of entries and drops balances the validators counted")
 	rd := "chain/genesis.ReadGenesisConfigFromFile"
 	r.Order(rd, "chain/genesis.CheckGenesis", "chain/genesis.NewGenesis", "a configuration is turned into a chain only after it passed validation")
@@ -73,9 +73,9 @@ func genesisSupplyRules(r *Run) {
 	}
 	ts := "chain/genesis.CheckTokenTotalSupply"
 	r.GuardLike(ts, "F(make(map[types.ZenonTokenStandard]*big.Int)[", "a declared token with no balance entry is refused")
-	r.GuardLike(ts, "ne(a0.TokenConfig.Tokens[(iter+1)].TotalSupply,make(map[types.ZenonTokenStandard]*big.Int)[", "declared supply must equal the sum of the balances, in both directions")
+	r.GuardLike(ts, "ne(a0.TokenConfig.Tokens[iter].TotalSupply,make(map[types.ZenonTokenStandard]*big.Int)[", "declared supply must equal the sum of the balances, in both directions")
 	r.GuardLike(ts, "F(phi(false|true))", "a balance in an undeclared token is refused")
-	r.Branch(ts, "eq(a0.TokenConfig.Tokens[(iter+1)].TokenStandard,next(range(make(map[types.ZenonTokenStandard]*big.Int)))#1)", "the undeclared-token scan compares every summed token with every declared token")
+	r.Branch(ts, "eq(a0.TokenConfig.Tokens[iter].TokenStandard,next(range(make(map[types.ZenonTokenStandard]*big.Int)))#1)", "the undeclared-token scan compares every summed token with every declared token")
 
 	// keyed lists the constructor treats as one state entry per key
 	dup := false
@@ -99,7 +99,7 @@ func genesisSupplyRules(r *Run) {
 			if e.Kind != "store" {
 				continue
 			}
-			if strings.HasPrefix(e.Canon, "store new(") && strings.HasSuffix(e.Canon, " = a0.GenesisBlocks.Blocks[(iter+1)].Address") {
+			if strings.HasPrefix(e.Canon, "store new(") && strings.HasSuffix(e.Canon, " = a0.GenesisBlocks.Blocks[iter].Address") {
 				if i := strings.Index(e.Canon, ")."); i > 0 {
 					addrKeyed[e.Canon[len("store "):i+1]] = true
 				}
@@ -113,7 +113,7 @@ func genesisSupplyRules(r *Run) {
 			if g.Reject == "" || !strings.HasPrefix(c, "T(make(map[") || !strings.HasSuffix(c, "#1)") {
 				continue
 			}
-			keyed := strings.Contains(c, "[a0.GenesisBlocks.Blocks[(iter+1)].Address]")
+			keyed := strings.Contains(c, "[a0.GenesisBlocks.Blocks[iter].Address]")
 			for k := range addrKeyed {
 				if strings.Contains(c, "["+k+"]") {
 					keyed = true
